@@ -101,6 +101,9 @@ typedef struct of_2d_parity_cb
 	UINT16*		tab_nb_equ_for_repair;
 	
 		void** repair_symbols_values;
+	/* NB: the two following fields are also part of of_linear_binary_code_cb_t, whose layout must be mirrored here */
+	void**		tmp_tab_symbols;
+	UINT16		nb_tmp_symbols;
 #endif /* } OF_USE_DECODER */
 
 	void 		**encoding_symbols_tab;
